@@ -88,7 +88,7 @@ func buildChain(w *sim.World, spec []int64) ([]pBlock, []byte, error) {
 	for _, b := range private.AllBlobs() {
 		var hp pb.SignedHeader
 		sh := new(types.SignedHeader)
-		if err := proto.Unmarshal(b.Data, &hp); err == nil && sh.FromProto(&hp) == nil && sh.ValidateBasic() == nil && sh.Height() >= ih && sh.Height() <= top {
+		if err := proto.Unmarshal(b.Data, &hp); err == nil && sh.FromProto(&hp) == nil && w.ValidHeader(sh) && sh.Height() >= ih && sh.Height() <= top {
 			blocks[sh.Height()-ih].HBlob = b.Data
 			continue
 		}
